@@ -20,11 +20,16 @@ CLAIMS = {
   "note": "Trusted: arc_swap, census, flock. Not decided: value equality of answers over time; multi-process races beyond the META_LOCK region.",
   "technique": "guard-region analysis, type reachability over ADT fields, signature scan, who-may-call tables, value back-trace",
  },
+ "C18": {
+  "text": "Decides the typestate that ties the lock to the writer: IndexWriter is only constructed in IndexWriter::new, which owns a DirectoryLock by value and stores it in _directory_lock; new is called only from writer_with_options (with the Ok value of acquire_lock(&INDEX_WRITER_LOCK), a non-blocking lock) and from rollback (with the lock taken from self); no other function touches the field; no leak primitive is applied to a lock owner; DirectoryLock is not Clone; the lock primitives create exclusively, return LockBusy when refused, own the locked file and delete the lock file on drop.",
+  "note": "Trusted: flock (fs4), OpenOptions::create_new atomicity, RwLock. Not decided: cross-process timing; the rollback-with-failing-new corner (recorded as an observation in DESIGN.md).",
+  "technique": "who-may-construct / who-may-call / who-may-touch-field tables over MIR, value back-trace, visibility and impl-table facts (thorough: compile_fail witnesses)",
+ },
 }
 NA = {
  "C13": "quantifies over values returned by arbitrary advance/seek programs on stateful iterators; failures are arithmetic; the only structural statement (wrapper forwarding) is not a necessary condition, so no sound static rule is in reach",
  "C14": "aggregation results are run-time numeric values (bucket arithmetic, float sums, sketches); structural parts are already enforced by derive and the compiler",
 }
 # properties not yet claimed (checks under construction) are listed as not applicable *for now*
-for _p, _why in {'C02': 'check under construction in this session (rules designed in DESIGN.md section 4; not yet registered)', 'C03': 'check under construction in this session (rules designed in DESIGN.md section 4; not yet registered)', 'C04': 'check under construction in this session (rules designed in DESIGN.md section 4; not yet registered)', 'C06': 'check under construction in this session (rules designed in DESIGN.md section 4; not yet registered)', 'C07': 'check under construction in this session (rules designed in DESIGN.md section 4; not yet registered)', 'C08': 'check under construction in this session (rules designed in DESIGN.md section 4; not yet registered)', 'C09': 'check under construction in this session (rules designed in DESIGN.md section 4; not yet registered)', 'C11': 'check under construction in this session (rules designed in DESIGN.md section 4; not yet registered)', 'C12': 'check under construction in this session (rules designed in DESIGN.md section 4; not yet registered)', 'C15': 'check under construction in this session (rules designed in DESIGN.md section 4; not yet registered)', 'C16': 'check under construction in this session (rules designed in DESIGN.md section 4; not yet registered)', 'C17': 'check under construction in this session (rules designed in DESIGN.md section 4; not yet registered)', 'C18': 'check under construction in this session (rules designed in DESIGN.md section 4; not yet registered)', 'C19': 'check under construction in this session (rules designed in DESIGN.md section 4; not yet registered)', }.items():
+for _p, _why in {'C02': 'check under construction in this session (rules designed in DESIGN.md section 4; not yet registered)', 'C03': 'check under construction in this session (rules designed in DESIGN.md section 4; not yet registered)', 'C04': 'check under construction in this session (rules designed in DESIGN.md section 4; not yet registered)', 'C06': 'check under construction in this session (rules designed in DESIGN.md section 4; not yet registered)', 'C07': 'check under construction in this session (rules designed in DESIGN.md section 4; not yet registered)', 'C08': 'check under construction in this session (rules designed in DESIGN.md section 4; not yet registered)', 'C09': 'check under construction in this session (rules designed in DESIGN.md section 4; not yet registered)', 'C11': 'check under construction in this session (rules designed in DESIGN.md section 4; not yet registered)', 'C12': 'check under construction in this session (rules designed in DESIGN.md section 4; not yet registered)', 'C15': 'check under construction in this session (rules designed in DESIGN.md section 4; not yet registered)', 'C16': 'check under construction in this session (rules designed in DESIGN.md section 4; not yet registered)', 'C17': 'check under construction in this session (rules designed in DESIGN.md section 4; not yet registered)', 'C19': 'check under construction in this session (rules designed in DESIGN.md section 4; not yet registered)', }.items():
     NA[_p] = _why
